@@ -6,12 +6,37 @@ class C10(core.Prop):
     id = "C10"
     drivers = [faultgen.DRIVER]
     level = "fault_enumeration"
-    sizes = {"quick": 40, "thorough": 1500}
+    sizes = {"quick": 32, "thorough": 300}
     max_workers = 6
     technique = ("property-based testing (Hypothesis) + exhaustive fault-schedule enumeration per generated program: invariants over the "
                  "kernel-ordered log of every faulty run (validity predicate built on a logical replay of the log)")
-    rule = ""
-    assumptions = []
+    rule = ("A case is ONE generated program: 2-3 actors on 2-3 hosts (1-4 cores, some with a disk), 1-3 links (SHARED / FATPIPE / SPLITDUPLEX, "
+            "latencies 0-1 s so that latency phases last) with symmetric or asymmetric 1-2 link routes, cross-traffic on or off, cpu/optim Lazy / "
+            "Full / TI, network/optim Lazy / Full; 2-5 steps among: communication (put / put_init+wait / put_async / put_detach against get / "
+            "get_init+wait / get_async, later wait or wait_any), local and remote executions (blocking or async), local and remote disk I/O, sleeps, "
+            "join, mutex sections; every actor registers an on_exit callback.  check() runs the program fault-free, collects its distinct event "
+            "dates D and ENUMERATES the single faults: every host (but the injector's) and every link (each direction of a split-duplex link and "
+            "the link as a whole) x every date of D (both injection methods: an injector actor on a host that never fails, and a state profile "
+            "in the platform), D -/+ 2^-20 and the midpoints (methods alternate); above 64 runs the midpoints, then the 'just after', then the "
+            "'just before' dates are dropped.  Thorough adds 2-6 generated pairs per program (a second failure, or the resource comes back, at "
+            "an event date of the single-fault run +/- 2^-20).  Every faulty log is replayed logically (FIFO mailbox matching, which activity "
+            "runs between which hosts over which links -- computed from the platform description, reverse route included under cross-traffic "
+            "--, who is blocked on what) and checked: I1 every live actor blocked on an activity that uses the failed resource (or that starts "
+            "on it while it is off, or waits for it later) gets NetworkFailure / HostFailure / StorageFailure at the date of the failure (resp. "
+            "of the start / of the wait), never a normal return; I2 the actors of a failed host terminate at that date, their on_exit callbacks "
+            "run once with failed=true, they print nothing afterwards, no survivor is killed; I3 every failure exception is justified by a failed "
+            "resource its activity uses (an activity that completed before the switch does not count); I4 at the end nobody is blocked on "
+            "anything but an unmatched communication, a synchronisation object or a join on a blocked actor.  A run that does not finish is a "
+            "violation (crash signature).  NON-TRIVIAL case: at least one run where the failure hits a running activity with a surviving waiter.  "
+            "Distinct = distinct programs.")
+    assumptions = ["sequential runs; the kernel serves the requests of a scheduling round after all its actors ran, in the order of the req lines: "
+                   "requests printed between the injector's request and the onoff record are replayed after the switch",
+                   "an activity that ends at the very date of the switch may end either way (the tie is left open by the statement): completion is "
+                   "read from the faulty log itself (act_end records, remaining == 0 samples) and from the reference run (same program without the fault)",
+                   "Activity::test() is not generated (the kernel deliberately swallows the failure there); timeouts are not generated",
+                   "a join on an actor of the failed host returns at the date of the failure",
+                   "when a root-cause defect already invalidates the logical model of a run (a survivor killed, a victim not killed, a state "
+                   "profile event that does not stop the clock) only that defect is reported for the run, not what follows from it"]
 
     def strategy(self, tier):
         if tier == "quick":
